@@ -12,6 +12,7 @@ use crate::scenario::{Op, Scenario};
 use rustzx_core::host::{Snapshot, Tape};
 use rustzx_core::poke::{Poke, PokeAction};
 use rustzx_core::{EmulationMode, EmulationStopReason};
+use rustzx_z80::Z80Bus;
 use std::time::Duration;
 use zxref::tape;
 
@@ -62,12 +63,20 @@ struct Driving {
     sound: bool,
     drain: i64,
     seed: u64,
+    /// in-frame clock the machine starts with (frame phase; the same for every driving of a scenario)
+    r0: usize,
+    /// calibration run: stop at the first arrival at 0x056A and report where in the frame it happened
+    calib: bool,
 }
 
 struct Trace {
     hashes: Vec<(usize, u64)>,
     audio: Option<u64>,
     samples: usize,
+    /// AY register file as the CPU would read it back at the end of the run (selected register first)
+    ay_final: u64,
+    /// calibration: (frames completed, in-frame clock) at the first arrival at 0x056A
+    hit: Option<(usize, usize)>,
 }
 
 impl C16 {
@@ -147,18 +156,22 @@ impl C16 {
             }
             _ => {}
         }
+        if d.r0 > 0 {
+            e.verif_set_frame_clocks(d.r0.min(cfg.frame_len() - 1));
+        }
         // events sorted by frame
         let mut evs: Vec<&Op> = sc.ops.iter().filter(|o| o.k == "ev").collect();
         evs.sort_by_key(|o| o.arg(0));
         let mut ei = 0usize;
         let mut frame = 0usize;
-        let mut trace = Trace { hashes: vec![], audio: None, samples: 0 };
+        let mut trace = Trace { hashes: vec![], audio: None, samples: 0, ay_final: 0, hit: None };
         let mut audio_h = Fnv::new();
         let mut audio: Vec<(f32, f32)> = vec![];
         let mut drng = Rng::new(d.seed);
         let always_drain = d.drain == 0 && (d.mode == 0 || d.mode == 3) && !sound_toggle;
         // driving-specific set-up
         match d.mode {
+            3 if d.calib => set_break_mode(&mut e, BreakMode::Set(vec![0x056A])),
             3 => set_break_mode(
                 &mut e,
                 if d.p1 == 1_000_001 {
@@ -240,6 +253,10 @@ impl C16 {
                         EmulationStopReason::Breakpoint => {
                             ctx.fault("breakpoint_stop");
                             done += e.verif_passed_frames();
+                            if d.calib {
+                                trace.hit = Some((frame + done, e.verif_frame_clocks()));
+                                return Ok(trace);
+                            }
                         }
                     },
                 }
@@ -271,6 +288,16 @@ impl C16 {
             }
         }
         trace.hashes.push((k, state_hash(&mut e, m128, true)));
+        {
+            // CPU-visible AY state (read after everything else: the port reads advance the clock)
+            let mut h = Fnv::new();
+            h.u8(e.verif_bus().read_io(0xFFFD));
+            for r in 0..16u8 {
+                e.verif_bus().write_io(0xFFFD, r);
+                h.u8(e.verif_bus().read_io(0xFFFD));
+            }
+            trace.ay_final = h.get();
+        }
         if always_drain {
             trace.audio = Some(audio_h.get());
         }
@@ -285,7 +312,7 @@ impl Property for C16 {
     }
     fn runs(&self, tier: Tier) -> u64 {
         match tier {
-            Tier::Quick => 160,
+            Tier::Quick => 480,
             Tier::Thorough => 12_000,
         }
     }
@@ -305,7 +332,7 @@ impl Property for C16 {
         vec!["host inputs are applied only at frame boundaries (as the property states)", "audio streams are compared only between drivings that drain at every frame boundary"]
     }
     fn expected_probes(&self) -> Vec<&'static str> {
-        vec!["cmp_framecount_n", "cmp_max_mode", "cmp_breakpoints", "cmp_sound_off", "cmp_asset_kind", "cmp_repeat", "audio_compared", "loader_program", "sound_toggled_by_setter", "fastload_set_after_construction"]
+        vec!["cmp_framecount_n", "cmp_max_mode", "cmp_breakpoints", "cmp_sound_off", "cmp_asset_kind", "cmp_repeat", "audio_compared", "loader_program", "sound_toggled_by_setter", "fastload_set_after_construction", "trap_at_frame_end"]
     }
 
     fn gen(&self, rng: &mut Rng, tier: Tier, _idx: u64) -> Scenario {
@@ -326,9 +353,14 @@ impl Property for C16 {
         let blocks = if content == 3 { super::c12::gen_tape(rng, 3, 302) } else { super::c12::gen_tape(rng, 2, 60) };
         sc.push(Op::blob("tape", &[], tape::make_tap(&blocks)));
         if content == 3 {
-            // the tape is in the deck from the start; in half of the runs it also plays (real-time loader)
+            // the tape is in the deck from the start; in half of the runs it also plays (real-time loader);
+            // in a third the frame phase is calibrated so that the first fast-load trap is raised by the
+            // instruction that completes a frame
             sc.op("ev", &[0, 11, 0, 0]);
-            if rng.bool() {
+            if rng.chance(1, 3) {
+                sc.set("align", rng.range(1, 3));
+                sc.set("fastload", 1);
+            } else if rng.bool() {
                 sc.op("ev", &[0, 7, 0, 0]);
             }
         }
@@ -381,13 +413,40 @@ impl Property for C16 {
             .ops
             .iter()
             .filter(|o| o.k == "drive")
-            .map(|o| Driving { mode: o.arg(0).clamp(0, 3), p1: o.arg(1).max(0), p2: o.arg(2).clamp(0, 2), asset_kind: o.arg(3).clamp(0, 4), sound: o.arg(4) != 0, drain: o.arg(5).clamp(0, 2), seed: o.arg(6) as u64 })
+            .map(|o| Driving { mode: o.arg(0).clamp(0, 3), p1: o.arg(1).max(0), p2: o.arg(2).clamp(0, 2), asset_kind: o.arg(3).clamp(0, 4), sound: o.arg(4) != 0, drain: o.arg(5).clamp(0, 2), seed: o.arg(6) as u64, r0: 0, calib: false })
             .collect();
         if drives.len() < 2 {
             return Ok(());
         }
         if sc.get("content") == 3 {
             ctx.probe("loader_program");
+        }
+        // frame phase: the loader program's fast-load trap is placed so that the instruction raising it is
+        // the one that completes a frame (an event raised by the last instruction of a host call)
+        let mut drives = drives;
+        let align = sc.get("align");
+        if sc.get("content") == 3 && align > 0 && sc.get("fastload") != 0 {
+            let f = if sc.get("m128") != 0 { 70908usize } else { 69888 };
+            let want = f - (1 + (align as usize - 1) % 3); // CP A at 0x056A starts 1..3 T before the frame end
+            let mut r0 = 0usize;
+            let mut ok = false;
+            for _ in 0..3 {
+                let cd = Driving { mode: 3, p1: 0, p2: 0, asset_kind: 0, sound: true, drain: 0, seed: 1, r0, calib: true };
+                match self.run_driving(sc, &cd, ctx)?.hit {
+                    Some((_, clk)) if clk == want => {
+                        ok = true;
+                        break;
+                    }
+                    Some((_, clk)) => r0 = (r0 + want + f - clk) % f,
+                    None => break,
+                }
+            }
+            if ok {
+                ctx.probe("trap_at_frame_end");
+                for d in drives.iter_mut() {
+                    d.r0 = r0;
+                }
+            }
         }
         let mut base: Option<Trace> = None;
         for (di, d) in drives.iter().enumerate() {
@@ -433,6 +492,13 @@ impl Property for C16 {
                             ));
                         }
                     }
+                }
+                if b.ay_final != t.ay_final {
+                    return Err(Fail::new(
+                        "C16.ay_state_differs",
+                        &format!("mode={},sound={}", d.mode, d.sound as u8),
+                        format!("the AY registers read back at the end of driving #{} (mode {} sound {} drain {}) differ from the one-frame-per-call driving", di, d.mode, d.sound, d.drain),
+                    ));
                 }
                 if let (Some(a1), Some(a2)) = (b.audio, t.audio) {
                     ctx.probe("audio_compared");
